@@ -137,7 +137,7 @@ def run(ctx, p):
         t0 = ts + 702.0
         rig.init_result = None
         rig.start(at=t0)
-        rig.run(t0 + 310.0)
+        rig.run(t0 + 700.0)
         got = {a.ac_id: sorted(z.zone_id for z in a.zones) for a in rig.at.air_conditioners} if rig.at else None
         kinds = [k for _, k, _ in con.requests[n_req:]]
         ok = rig.init_result is True and rig.at.initialised and got == {0: [0, 1], 1: [2, 3]} and kinds[:6] == STEPS
@@ -145,4 +145,6 @@ def run(ctx, p):
         # the heartbeat of the new session runs (a console-version request 300 s after the re-initialisation)
         hb = [t for t, k, _ in con.requests[n_req:] if k == "version"]
         ctx.check(len(hb) >= 3, "reinit_works", detail=dict(detail, why="no heartbeat in the second session", version_requests=len(hb)))
+        resets2 = [t for (ev, idx, t) in rig.net.events if ev == "close" and _b(t > t0)]
+        ctx.check(resets2 == [], "reinit_works", detail=dict(detail, why="the healthy link of the second session was reset", at=[str(t) for t in resets2]))
         ctx.check(not rig.task_failures(), "reinit_works", detail=[str(e.get("exception")) for e in rig.task_failures()][:2])
